@@ -44,7 +44,8 @@ def valid_value(value, type_hint, strict_callables: bool = True) -> bool:
 
 
 def type_hint_to_tuple(type_hint) -> tuple:
-    if isinstance(type_hint, types.UnionType):
+    if typing.get_origin(type_hint) in (types.UnionType, typing.Union):
+        # Both spellings of a union: `X | Y` and `typing.Union[X, Y]`/`typing.Optional[X]`
         return typing.get_args(type_hint)
     return (type_hint,)
 
